@@ -164,6 +164,25 @@ pub fn run(mut run: Run) -> i32 {
                 json!({"g": s.wkt(), "coord": [co.x, co.y], "expected": format!("{:?}", exp), "got": gs})
             });
         }
+        // signed zeros: the query written with -0.0, and the shape written with -0.0, denote the same points
+        if kx == 0 || ky == 0 || matches!(&s.ag, AG::Polys(_) | AG::Lines(_)) && q % 5 == 0 {
+            let cz = Coord { x: if co.x == 0.0 { -0.0 } else { co.x }, y: if co.y == 0.0 { -0.0 } else { co.y } };
+            for (what, got) in [
+                ("query written with -0.0", guard(|| with_geom!(&s.g, x => x.coordinate_position(&cz)))),
+                ("shape written with -0.0", guard(|| { let z = neg_zeros(&s.g, 0); with_geom!(&z, x => x.coordinate_position(&co)) })),
+                ("shape written with alternating -0.0", guard(|| { let z = neg_zeros(&s.g, 1); with_geom!(&z, x => x.coordinate_position(&cz)) })),
+            ] {
+                acc.evals += 1;
+                let gs2 = match got {
+                    Ok(v) => format!("{:?}", v),
+                    Err(p) => format!("panic:{}", p),
+                };
+                // the known MultiLineString finding shows here as well; only report a signed-zero problem when the plain answer was right
+                if gs2 != format!("{:?}", exp) && gs == format!("{:?}", exp) {
+                    acc.viol(format!("coordinate_position {} changes with signed zeros ({}) expected={:?} got={}", s.ty(), what, exp, gs2), idx, || json!({"g": s.wkt(), "coord": [co.x, co.y], "expected": format!("{:?}", exp), "got": gs2}));
+                }
+            }
+        }
         // integer instantiation on lattice points
         if kx % 2 == 0 && ky % 2 == 0 {
             let ci = Coord { x: kx / 2, y: ky / 2 };
